@@ -191,15 +191,41 @@ SEED_FLAVOUR[10] = ("ROUND-SPECIFIC INSTRUCTIONS: each of the two variants must 
                     "tests must still pass. Variant a and variant b must be different kinds of feature.")
 
 
+# round 11: histories, faults and interleavings.  Nothing is wrong on the first call of a fresh object with well-behaved I/O: the breakage needs a
+# second operation, a fault at one particular point, or two things in flight at once.  The neutral side is robustness work that keeps the property.
+SEED_FLAVOUR[11] = ("ROUND-SPECIFIC INSTRUCTIONS: neither variant may be visible on the FIRST operation of a FRESH object with well-behaved I/O. Variant a must need "
+                    "a HISTORY: a sequence of two or more operations on the same object(s) where an earlier one leaves something behind that makes a later one "
+                    "violate the property (a second refresh / apply / send / discover / get_token on the same instance, a reconnect after a failure, a "
+                    "re-authentication after expiry, a response arriving after an earlier partial one, a value set and then set back, a counter wrapping, a "
+                    "buffer or cache or set that is reused). Variant b must need a FAULT OR AN INTERLEAVING AT ONE PARTICULAR POINT: a timeout, cancellation, "
+                    "connection loss or exception raised exactly between two statements (between write and read, in the middle of the handshake, while "
+                    "draining, during cleanup), a peer that sends data split or coalesced at a particular byte, an unsolicited frame arriving at a particular "
+                    "moment, or two coroutines using the same object concurrently. The edit itself should be small and look like a reasonable tidy-up or "
+                    "robustness tweak (moving a store or a cleanup call across an await, narrowing or widening a try block, reusing an object instead of "
+                    "creating it, resetting less or more than before, changing when a flag is raised or lowered). In notes.md write the exact history / fault "
+                    "point / schedule needed.")
+NEUTRAL_FLAVOUR[11] = (
+    "ROUND-SPECIFIC INSTRUCTIONS (they override the numbers and the word 'refactoring' above): produce TWO variants r1 and r2, each a realistic piece of "
+    "ROBUSTNESS / LIFECYCLE work on the responsible code under which the property still holds for every input, history, fault point and schedule it "
+    "quantifies over. Pick two different kinds from what fits this property, for example: a try/finally or context manager that makes an existing cleanup "
+    "happen on more exit paths (never fewer); an asyncio.Lock (or equivalent) serialising an exchange that was already used sequentially; a store or reset "
+    "moved across a statement it does not interact with; state that was reset lazily now reset eagerly at the same logical points (or the reverse) with the "
+    "same observable result; an explicit close / disconnect / reset helper that existing code paths now call where they did the same thing inline; a "
+    "timeout or limit turned into a named constant or constructor parameter whose default is today's value; extra debug logging on error paths; "
+    "an exception re-raised with `from`; defensive re-initialisation that cannot change any outcome. Existing behaviour for existing callers must not change "
+    "at all (same results, same exception classes, same bytes on the wire, same number of transmissions); the 65 tests must still pass. In notes.md say "
+    "what was changed and why the property still holds for second operations, faults at every await and concurrent use.")
+
+
 def sh(cmd):
     return subprocess.run(cmd, shell=True, capture_output=True, text=True)
 
 
 VERIF = os.path.dirname(os.path.dirname(os.path.abspath(__file__)))
 BASELINE = json.load(open("/root/.vp/BASELINE.json"))["stable_pass"]
-LETTERS = {3: {"a": "e", "b": "f"}, 4: {"a": "g", "b": "h"}, 5: {"a": "i", "b": "j"}, 6: {"a": "k", "b": "l", "c": "m", "d": "n"}, 7: {"a": "o", "b": "p"}, 8: {"a": "q", "b": "r"}, 10: {"a": "s", "b": "t"}}          # seeds: round -> variant -> suffix under /verif/seeded
+LETTERS = {3: {"a": "e", "b": "f"}, 4: {"a": "g", "b": "h"}, 5: {"a": "i", "b": "j"}, 6: {"a": "k", "b": "l", "c": "m", "d": "n"}, 7: {"a": "o", "b": "p"}, 8: {"a": "q", "b": "r"}, 10: {"a": "s", "b": "t"}, 11: {"a": "u", "b": "v"}}          # seeds: round -> variant -> suffix under /verif/seeded
 NUMBERS = {3: {"r1": "r8", "r2": "r9", "r3": "r10"}, 4: {"r1": "r11", "r2": "r12", "r3": "r13"}, 5: {"r1": "r14", "r2": "r15", "r3": "r16"},
-           6: {"r1": "r17", "r2": "r18", "r3": "r19", "r4": "r20", "r5": "r21"}, 7: {"r1": "r22", "r2": "r23", "r3": "r24"}, 8: {"r1": "r25", "r2": "r26"}, 9: {"r1": "r27", "r2": "r28"}}
+           6: {"r1": "r17", "r2": "r18", "r3": "r19", "r4": "r20", "r5": "r21"}, 7: {"r1": "r22", "r2": "r23", "r3": "r24"}, 8: {"r1": "r25", "r2": "r26"}, 9: {"r1": "r27", "r2": "r28"}, 11: {"r1": "r29", "r2": "r30"}}
 
 
 def variants(root):
